@@ -29,4 +29,13 @@ CLAIMS = {
         "note": "Not decided: the bound/accounting/eviction-order invariants after every prefix of every operation sequence, exact byte totals, and thread interleavings - "
                 "these need model-based exploration, a different technique. The rules are necessary structural conditions of those invariants.",
     },
+    "C16": {
+        "technique": "static analysis: typestate (one write per append), expression-shape and provenance checks, alias/whitelist analysis of the normaliser, sort-key and table checks, enumeration + ordering of rotation file operations",
+        "text": "Decides the code-shape conditions of well-formed, ordered, lossless logs: one binary-append write of one encoded JSON line per record on every path and a single "
+                "owner of that write; normalisation touches only a copy and only the volatile whitelist with same-key values; staged records are drained by "
+                "(turn, stage_ord, slice, seq) with distinct canonical ordinals and a +1 seq; compaction keeps one line per record in order via the atomic path; "
+                "rotation is delete-oldest, strictly descending rename cascade, live file last.",
+        "note": "Not decided: line atomicity under real thread/process contention (POSIX O_APPEND, A3), independence of the flush order from the staging limit over all arrival "
+                "orders, and generation bookkeeping over rotation histories / interruption points - schedule- and history-quantified.",
+    },
 }
